@@ -1,0 +1,29 @@
+//go:build verif
+
+package machine
+
+// Verification hooks (build tag `verif`). Add-only: accessors for unexported
+// state and named schedule points used by the /verif harness.
+
+// VerifPoint, when set, is called at named schedule points.
+var VerifPoint func(m *Machine, id string)
+
+func verifPoint(m *Machine, id string) {
+	if f := VerifPoint; f != nil {
+		f(m, id)
+	}
+}
+
+// VerifTopology returns the Require topology computed by the default resolver.
+func VerifTopology(m *Machine) S {
+	rr, ok := m.resolver.(*DefaultRelationsResolver)
+	if !ok {
+		return nil
+	}
+	return rr.topology
+}
+
+// VerifQueueProcessing reports whether the queue lock flag is set.
+func VerifQueueProcessing(m *Machine) bool {
+	return m.queueProcessing.Load()
+}
